@@ -239,7 +239,7 @@ def main(modname, argv):
     t0 = time.time()
     shards = mod.plan(tier, seed)
     # VERIF_SEED only rotates the visiting order; coverage is identical for every seed
-    if shards:
+    if shards and not getattr(mod, 'KEEP_ORDER', False):
         r = seed % len(shards)
         shards = shards[r:] + shards[:r]
     total = new_result()
